@@ -176,6 +176,10 @@ func (h *H) Yield()                   {}
 func (h *H) NoPreempt(on bool)        {}
 func (h *H) AtQuiescence(f func())    { h.quiesce = append(h.quiesce, f) }
 func (h *H) MapOrderNondet(on bool)   {}
+
+// BackgroundLowPriority: in the engine, goroutines started by the code under test (and timers)
+// run only when no harness thread can run (sequential harnesses); no effect natively.
+func (h *H) BackgroundLowPriority(on bool) {}
 func (h *H) Stub(callee string, f any) {}
 func (h *H) Logf(format string, a ...any) { fmt.Fprintf(os.Stderr, format+"\n", a...) }
 
